@@ -35,11 +35,15 @@ def main(ids):
         sh(f"git -C /repo worktree remove --force {wt}")
         # run the check against /repo with the patch applied
         assert sh("git -C /repo status --porcelain").stdout.strip() == "", "/repo not clean"
+        evf = f"{V}/evidence/{prop}.json"
+        saved = open(evf).read() if os.path.exists(evf) else None
         sh(f"git -C /repo apply {d}/patch.diff")
         try:
             c = sh(f"cd {V} && ./check {prop} --tier quick")
         finally:
             sh("git -C /repo checkout -- .")
+            if saved is not None:
+                open(evf, "w").write(saved)       # evidence must describe the unchanged tree
         viol = [l for l in c.stdout.splitlines() if l.startswith("VIOLATION")]
         obl = []
         for l in viol:
